@@ -9,6 +9,8 @@ import GE.Model.TagGen
 import GE.Model.Group
 import GE.Model.PathAnalysis
 import GE.Model.LvaluePath
+import GE.Model.Number
+import GE.Model.AttrLoop
 import GE.Model.BindingMap
 import GE.Model.CssIO
 /-!
@@ -123,6 +125,15 @@ def step (fs : List String) : String :=
       let a := GE.PA.prepareAnalysis sc e
       esc (GE.Gen.spellStmts o.stmts) ++ "\t" ++ esc (GE.Gen.spellAll o.toks) ++ "\t" ++ toString (GE.Gen.aboveCond e)
         ++ "\t" ++ esc (GE.PA.stateExpr sc false a.pas a.pc) ++ "\t" ++ esc (GE.PA.stateExpr sc true a.pas a.pc)
+  | ["number", kind, digits] =>
+    let ds := (chars digits).map fun c =>
+      if '0' ≤ c ∧ c ≤ '9' then c.toNat - 48 else if 'a' ≤ c ∧ c ≤ 'f' then c.toNat - 87 else if 'A' ≤ c ∧ c ≤ 'F' then c.toNat - 55 else 99
+    if ds.any (· == 99) then "bad-digit" else
+    let lit := if kind == "oct" then GE.Number.scanRadix 3 ds else if kind == "hex" then GE.Number.scanRadix 4 ds else GE.Number.scanDec ds
+    (match lit with
+     | .int v => s!"int {v}"
+     | .float h d st => s!"float {h} {d} {if st then 1 else 0}"
+     | .floatText => "floattext")
   | ["lvalue", sx, scopes] =>
     withExpr sx fun e =>
       let sc := parseScopes scopes
